@@ -498,3 +498,68 @@ def c17(tier, replay=None):
     chk.part("harness", **info)
     chk.assumptions += ["systems are small enough (<= 6 state bits, <= 3 input bits) for exhaustive enumeration of executions; states without a next function are not generated"]
     return chk.finish()
+
+
+# ------------------------------------------------------------------------------------------------
+def c08(tier, replay=None):
+    chk = Check("C08", tier, "model_checking")
+    T = chk.thorough()
+    ops, gen, dist = pv.generate("Btor2Gen", {"Widths": "{1, 2, 3}"}, "btor2gen", workers=4, deps=["Btor2Gen", "Btor2", "Expr", "BV"])
+    if gen:
+        chk.add_states(gen, dist)
+    trace = chk.work / "trace.ndjson"
+    if replay:
+        rep = json.loads(Path(replay).read_text())
+        pv.write_ndjson(trace, [rep["detail"]["record"]])
+        info = {"records": 1}
+    else:
+        pv.write_ndjson(chk.work / "in.ndjson", ops)
+        p = pv.pv(["c08", "--in", chk.work / "in.ndjson", "--out", trace, "--random", 20000 if T else 2500])
+        info = json.loads(p.stdout.strip().splitlines()[-1])
+    st = batch_check(chk, "Trace_C08", trace, lambda rj, rec: {"why": rj["why"], "loc": rj.get("loc", "").split("|")[0]},
+                     lambda rj, rec: {"record": rec, "tlc": rj}, shards=14)
+    chk.cov["traces_validated_against_impl"] = st["records"]
+    chk.cov["evaluations"] = st["records"]
+    chk.cov["distinct_nontrivial"] = st["records"]
+    chk.cov["rule"] = (f"all {len(ops)} one-operator files of Btor2Gen.tla (every supported operator x widths 1-3 x slice/extension attributes x every negation "
+                       "pattern, referenced by output, bad, constraint and next lines) + seeded random multi-line files (all constant spellings, arrays with "
+                       "read/write/eq/ite, init incl. bit-vector init of array states, states demoted to inputs) each with an ill-sorted variant; every "
+                       "parsed function compared with the btor2 meaning of its line under all valuations")
+    sample_lines(chk, trace, 3, lambda r: {"id": r["id"], "text": r["text"], "outcome": r["outcome"]})
+    chk.part("harness", **info)
+    chk.assumptions += ["Btor2.tla is written from the BTOR2 format description; operators documented as unsupported (inc, dec, rol, ror, overflow, fair, justice) are not generated"]
+    return chk.finish()
+
+
+def c18(tier, replay=None):
+    chk = Check("C18", tier, "exploration")
+    T = chk.thorough()
+    ill, gen, dist = pv.generate("Btor2IllGen", {}, "btor2ill", workers=4, deps=["Btor2IllGen", "Btor2", "Expr", "BV"])
+    if gen:
+        chk.add_states(gen, dist)
+    trace = chk.work / "trace.ndjson"
+    if replay:
+        rep = json.loads(Path(replay).read_text())
+        txt = "\n".join(rep["detail"]["record"]["text"]) + "\n"
+        (chk.work / "one.btor").write_text(txt)
+        pv.write_ndjson(trace, [rep["detail"]["record"]])
+        info = {"records": 1, "worker": {"inputs": 1}}
+    else:
+        pv.write_ndjson(chk.work / "in.ndjson", ill)
+        p = pv.pv(["c18", "--in", chk.work / "in.ndjson", "--out", trace, "--mutants", 300000 if T else 12000], timeout=7200)
+        info = json.loads(p.stdout.strip().splitlines()[-1])
+    st = batch_check(chk, "Trace_C18", trace, lambda rj, rec: {"why": rj["why"], "file": rj.get("loc", ""), "op": rj.get("op", "")},
+                     lambda rj, rec: {"record": {k: v for k, v in rec.items() if k != "sys"}, "tlc": rj}, shards=14)
+    ninputs = info.get("worker", {}).get("inputs", st["records"])
+    chk.cov["traces_validated_against_impl"] = st["records"]
+    chk.cov["evaluations"] = ninputs
+    chk.cov["distinct_nontrivial"] = st["records"]
+    chk.cov["rule"] = (f"all {len(ill)} systematically ill-kinded files of Btor2IllGen.tla (operator x operand position x wrong kind of reference) + seeded "
+                       "1-3 line/token/byte mutations of the shipped btor2 files (<= 400 lines) and of generated files, each parsed in a memory-limited worker; "
+                       "TLC type-checks every accepted system and classifies every panic; distinct = records kept for TLC (all accepted systems, <= 40 "
+                       "panics per location, <= 50 rejected inputs)")
+    sample_lines(chk, trace, 3, lambda r: {"id": r["id"], "text": r["text"][:12], "outcome": r["outcome"], "loc": r["loc"]})
+    chk.part("harness", **{k: v for k, v in info.items() if k != "worker"})
+    chk.part("outcomes", **info.get("worker", {}).get("outcomes_last_worker", {}))
+    chk.assumptions += ["'never crashes on arbitrary text' is observed by a mutation driver, not proved", "systems with a type wider than 4096 bits are accepted unchecked (counted as ok-unchecked)"]
+    return chk.finish()
